@@ -15,6 +15,7 @@ import (
 	"verifharness/cryptob"
 
 	"verifharness/geometry"
+	"verifharness/httpb"
 	"verifharness/internal/isolate"
 	"verifharness/live"
 	"verifharness/metadata"
@@ -30,6 +31,7 @@ import (
 var bindings = map[string]func(in []byte) any{
 	"piecestore": piecestore.Replay,
 	"webseed":    webseedb.Handle,
+	"http":       httpb.Handle,
 	"crypto":     cryptob.Handle,
 	"live":       live.Handle,
 	"peerfsm":    peerfsm.Replay,
